@@ -1,6 +1,6 @@
 (** C04: the model [step] of core.Spec.Step and the documented transition
     rule (Spec/StepRule.v) determine each other: [step] satisfies the rule
-    and the rule admits no other outcome. *)
+    and the rule allows no other outcome. *)
 From Coq Require Import Lia.
 From Sheens Require Import Model.Step Spec.StepRule Proofs.StepFacts.
 
